@@ -18,6 +18,9 @@ from inferno.neural import Clamping, Normalization, LinearDense, DeltaCurrent
 _POST = {"installed": False, "clamp_evals": 0, "norm_evals": 0, "violations": []}
 
 
+_CONF = {}   # id(hook) -> configured (min, max) or (order, scale, dim); entries live as long as the case's hook
+
+
 def _install_postconditions():
     if _POST["installed"]:
         return
@@ -29,7 +32,9 @@ def _install_postconditions():
         orig_c(self, module)
         v = rgetattr(self.module, self.attribute)
         _POST["clamp_evals"] += 1
-        lo, hi = self.clampmin, self.clampmax
+        # what the user configured (recorded by the harness at construction); the hook's own attributes only when the
+        # hook was built by somebody else (test-suite workload)
+        lo, hi = _CONF.get(id(self), (self.clampmin, self.clampmax))
         bad = (lo is not None and bool((v < lo).any())) or (hi is not None and bool((v > hi).any())) or bool(torch.isnan(v).any())
         if bad:
             _POST["violations"].append(("clamp.out_of_range_after_firing", f"min={lo} max={hi} value range "
@@ -40,10 +45,10 @@ def _install_postconditions():
         orig_n(self, module)
         v = rgetattr(self.module, self.attribute).detach()
         _POST["norm_evals"] += 1
-        dim = self.dim
-        nb = torch.linalg.vector_norm(before.double(), ord=self.order, dim=dim, keepdim=True)
-        na = torch.linalg.vector_norm(v.double(), ord=self.order, dim=dim, keepdim=True)
-        target = abs(self.scale)
+        order, scale, dim = _CONF.get(id(self), (self.order, self.scale, self.dim))
+        nb = torch.linalg.vector_norm(before.double(), ord=order, dim=dim, keepdim=True)
+        na = torch.linalg.vector_norm(v.double(), ord=order, dim=dim, keepdim=True)
+        target = abs(scale)
         zero = nb == 0
         ok_nonzero = torch.isclose(na[~zero], torch.full_like(na[~zero], target), rtol=1e-5, atol=1e-7)
         if not bool(ok_nonzero.all()):
@@ -126,8 +131,8 @@ def generate(ctx):
              "train_update": rng.random() < 0.8, "eval_update": rng.random() < 0.8, "pre": rng.random() < 0.4,
              "shape": [rng.randint(1, 4), rng.randint(1, 5)], "nops": rng.randint(3, 10)}
         if which == "clamp":
-            lo = rng.choice([None, -1.0, 0.0, 0.25, -3])
-            hi = rng.choice([None, 1.0, 0.5, 2, 10.0])
+            lo = rng.choice([None, -1.0, 0.0, 0.25, -3, -2.5])
+            hi = rng.choice([None, 1.0, 0.5, 2, 10.0, 0.0, 0, -0.5])
             if lo is None and hi is None:
                 hi = 0.5
             if lo is not None and hi is not None and hi <= lo:
@@ -334,9 +339,13 @@ def _post(ctx, desc):
     try:
         if desc["which"] == "clamp":
             hk = Clamping(mod, attr, desc["min"], desc["max"], **kw)
+            _CONF.clear()
+            _CONF[id(hk)] = (desc["min"], desc["max"])
         else:
             dim = desc["dim"]
             hk = Normalization(mod, attr, desc["order"], desc["scale"], tuple(dim) if isinstance(dim, list) else dim, **kw)
+            _CONF.clear()
+            _CONF[id(hk)] = (desc["order"], desc["scale"], tuple(dim) if isinstance(dim, list) else dim)
         hk.register()
     except Exception as e:  # noqa: BLE001
         return ctx.violation(ctx.exc_signature(e, f"post.{desc['which']}.construct.{target}"), f"{type(e).__name__}: {str(e)[:140]}", desc)
